@@ -34,7 +34,7 @@ KV_TEXT = {
     "shortdbg": "x:?", "err": "{k}:err = e", "sval": "{k}:sval = x", "serde": "{k}:serde = x",
     "ref=7": "ref = 7", "ref=0": "ref = 0", "ref=max": "ref = 4294967295", "ref=07": "ref = 07", "ref=x": "ref = x",
     "ref:?=x": "ref:? = x", "ref=over": "ref = 4294967296", "ref=str": 'ref = "7"', "ref=neg": "ref = -7",
-    "ref=hex": "ref = 0x7", "ref=suffixed": "ref = 7u32", "ref=strkey": '"ref" = 7', "strref": '{k} = "[ref: 5] v"',
+    "ref=hex": "ref = 0x7", "ref=suffixed": "ref = 7u32", "ref=strkey": '"ref" = 7', "ref=strkeycmt": '"ref" /* id */ = 7', "strref": '{k} = "[ref: 5] v"',
 }
 # shapes that do not compile against the log crate as available offline (feature kv only) or are not valid Rust
 KV_NOCOMPILE = {"err", "sval", "serde", "ref=over", "ref=07", "ref=neg", "bytestr"}      # b"x": [u8; 1] is not a log value
@@ -135,6 +135,8 @@ def render_case(case, uid, macroset=None):
             "unicodeprefix": "\u65e5\u5fd7" + macro, "unicodemod": "\u0436\u0443\u0440\u043d\u0430\u043b::" + macro, "submod": mod + "::sub::" + macro,
             "shortmod": "l::" + macro, "noliteral": macro, "noargs": macro, "linecomment": macro,
             "blockcomment": macro, "doccomment": macro, "instring": macro, "instringopen": macro, "rawstring": macro, "starcomment": macro, "nolit_outer": macro,
+            "afterescchar": macro, "pathtail_ws": "other :: " + mod + "::" + macro, "pathtail_nl": "other::\n        " + mod + "::" + macro,
+            "pathtail_bare": "other ::" + macro, "metavar": "$" + macro,
             "nestedcomment": macro, "nestedcomment3": macro, "bannercomment": macro, "upper": macro.upper(),
             "crateprefixed": "crate::" + mod + "::" + macro}.get(head)
     if name is None:
@@ -147,7 +149,7 @@ def render_case(case, uid, macroset=None):
         return sum(len(x) for x in out)
     # the inter-token layout also applies between the `!` and the opening parenthesis (every second statement)
     commentish = head in ("linecomment", "blockcomment", "doccomment", "instring", "instringopen", "rawstring", "starcomment", "bannercomment",
-                          "nestedcomment", "nestedcomment3", "nolit_outer")
+                          "nestedcomment", "nestedcomment3", "nolit_outer", "afterescchar")
     hg = g if (uid % 4 == 0 and not commentish) else ""          # between `!` and `(`
     hb = g if (uid % 4 == 2 and not commentish) else ""          # between the name and `!`
     out.append(name + hb + "!" + hg + "(")
@@ -196,6 +198,10 @@ def render_case(case, uid, macroset=None):
     elif head == "instring":
         inner = call.replace("\\", "\\\\").replace('"', '\\"').replace("\n", " ").replace("\r", " ")
         body = '    let _s%d = "call %s here";' % (uid, inner)
+        stmt_off = None
+    elif head == "afterescchar":
+        # a quote character written as an escape, then a comment that itself contains a quote and macro-like text
+        body = "    let _c%d = '\\\"'; // it said \"stop\" then " % uid + call + ";"
         stmt_off = None
     elif head == "nolit_outer":
         # a configured name without a literal message, as an argument of another macro whose own arguments go on with `; "text"`
